@@ -19,4 +19,7 @@ def open_file(path: Path, mode: str) -> ContextManager[ProcessExecutionFile]:
 
 @contextmanager
 def opened_file(f: TextIO) -> ContextManager[ProcessExecutionFile]:
+    # The process writes via the file descriptor:
+    # contents buffered by the file object must be written before it.
+    f.flush()
     yield f
